@@ -57,6 +57,15 @@ theorem scan_precedes (log : List Ev) : ∀ (n : Nat) (o : Option Nat) (st : Nat
         simp only [scan] at hs
         obtain ⟨r, hr⟩ := ih n o st pre' post j hs hrest i hni hij
         exact ⟨r, List.mem_cons_of_mem _ hr⟩
+      | retry i0 =>
+        cases o with
+        | none => simp [scan] at hs
+        | some m =>
+          simp only [scan] at hs
+          split at hs
+          · obtain ⟨r, hr⟩ := ih n (some m) st pre' post j hs hrest i hni hij
+            exact ⟨r, List.mem_cons_of_mem _ hr⟩
+          · simp at hs
 
 /-- Starts and finishes alternate, in request order, under every schedule: the log of every
 reachable state is accepted by `scan` (no operation starts while another is in progress, none
@@ -77,6 +86,61 @@ theorem serial_order (ops : List Op) (pre post : List Ev) (j : Nat)
   obtain ⟨n, hn⟩ := starts_and_finishes_alternate ops
   intro i hij
   exact scan_precedes _ 0 none _ pre post j hn h i (Nat.zero_le _) hij
+
+/-- **retries are part of the operation**: an operation is a sequence of attempts (`Ev.retry i` marks
+the beginning of a further attempt of operation `i` after an UncoordinatedWriteError) and is complete
+only when its last attempt ends.  Under every schedule, when the callable of operation `j` is invoked,
+every earlier-requested operation `i < j` has produced its result AND no attempt of `i` begins
+afterwards: the queue never starts operation i+1 before the last attempt of operation i ended. -/
+theorem no_start_before_last_attempt (ops : List Op) (pre post : List Ev) (j : Nat)
+    (h : (runOps ops).core.log = pre ++ Ev.start j :: post) :
+    ∀ i, i < j → (∃ r, Ev.finish i r ∈ pre) ∧ Ev.retry i ∉ post := by
+  obtain ⟨n, hn⟩ := starts_and_finishes_alternate ops
+  intro i hij
+  refine ⟨scan_precedes _ 0 none _ pre post j hn h i (Nat.zero_le _) hij, ?_⟩
+  rw [h, scan_append] at hn
+  cases hpre : scan pre (0, none) with
+  | none => rw [hpre] at hn; simp at hn
+  | some st =>
+    obtain ⟨n', o'⟩ := st
+    rw [hpre] at hn
+    simp only [Option.bind_some] at hn
+    cases o' with
+    | some m => simp [scan] at hn
+    | none =>
+      simp only [scan] at hn
+      split at hn
+      · rename_i hjn
+        intro hmem
+        have := scan_retry_ge post n' (some j) _ hn (by intro j' hj'; cases hj'; exact hjn) i hmem
+        omega
+      · simp at hn
+
+/-- every further attempt of an operation lies inside its extent: after operation `i` produced its
+result (and hence after its caller's Deferred can fire) no attempt of `i` begins -/
+theorem no_attempt_after_finish (ops : List Op) (pre post : List Ev) (i : Nat) (r : Res)
+    (h : (runOps ops).core.log = pre ++ Ev.finish i r :: post) : Ev.retry i ∉ post := by
+  obtain ⟨n, hn⟩ := starts_and_finishes_alternate ops
+  rw [h, scan_append] at hn
+  cases hpre : scan pre (0, none) with
+  | none => rw [hpre] at hn; simp at hn
+  | some st =>
+    obtain ⟨n', o'⟩ := st
+    rw [hpre] at hn
+    simp only [Option.bind_some] at hn
+    cases o' with
+    | none => simp [scan] at hn
+    | some m =>
+      simp only [scan] at hn
+      split at hn
+      · rename_i hc
+        intro hmem
+        have := scan_retry_ge post (n' + 1) none _ hn (by intro j' hj'; cases hj') i hmem
+        omega
+      · simp at hn
+
+example : (runOps [.req none, .req none, .retry 0, .retry 1, .retry 0, .fin 0 .ok, .retry 0, .retry 1, .fin 1 .ok]).core.log =
+    [.start 0, .retry 0, .retry 0, .finish 0 .ok, .start 1, .retry 1, .finish 1 .ok] := by decide
 
 example : (runOps [.req none, .req none, .fin 0 .fail, .fin 1 .ok, .turn]).core.log =
     [.start 0, .finish 0 .fail, .start 1, .finish 1 .ok, .deliver 0 .fail, .deliver 1 .ok] := by decide
